@@ -103,6 +103,7 @@ package server
 // compacting a URI and expanding the CURIE again gives the URI back: the result satisfies ExpandCurie's success condition with value val
 //@ unit (*Store).GetNamespacedIdentifierFromURI
 //@   prop C13
+//@   frame-assumed preserves RelatedFrom.*, []*server.RelatedFrom, Store.database, Store.NamespaceManager, Store.datasets, NamespaceManager.lock, Cell.*, Enc.*, []uint32
 //@   requires [callers-hold-no-lock-at-or-above-the-namespace-lock] forall l int :: has($held, l) ==> lockLevel(l) < 5
 //@   requires s != nil && s.NamespaceManager != nil && !has($held, addrOf(s.NamespaceManager.lock))
 //@   ensures [roundtrip] ret1 == nil ==> indexOf(ret0, ":") >= 0 && has(s.NamespaceManager.prefixToExpansionMapping, ret0[:indexOf(ret0, ":")])
@@ -1432,8 +1433,41 @@ package server
 // ---------------------------------------------------------------------------
 // C03 / C06: a first query page: the start points are resolved for the requested predicate, direction and scope at one
 // instant taken now, and exactly these are handed to the paged scan with the requested limit
-//@ assumed (*Store).ToRelatedFrom
+//@ assumed (*Store).DatasetsToInternalIDs
 //@   pure
+//@ assumed (*Store).GetPredicateID
+//@   pure
+//@ assumed (*Store).getIDForURI
+//@   pure
+// a start point of a relationship query: the 10-byte key {index of the direction, internal id of the start entity}, the
+// predicate, the direction, the scope and the one instant the whole query is pinned to
+//@ unit (*Store).ToRelatedFrom
+//@   prop C03 C06
+//@   ghost scopeG slice
+//@   ghost pidG int = 0
+//@   ghost ridG int = 0
+//@   requires s != nil && s.database != nil && s.NamespaceManager != nil && !has($held, addrOf(s.NamespaceManager.lock))
+//@   requires [callers-hold-no-lock-at-or-above-the-namespace-lock] forall l int :: has($held, l) ==> lockLevel(l) < 5
+//@   ensures [C03:one-start-point-per-requested-entity] ret1 == nil && ret0 != nil ==> len(ret0) == len(startPoints)
+//@   ensures [C03,C06:every-start-point-carries-the-requested-predicate-direction-scope-and-the-one-instant] ret1 == nil && ret0 != nil ==> (forall a int :: 0 <= a && a < len(ret0) ==> ret0[a] != nil && ret0[a].Predicate == pidG && ret0[a].Inverse == inverse && ret0[a].Datasets == scopeG && ret0[a].At == queryTime && len(ret0[a].RelationIndexFromKey) == 10 && encBE16(ret0[a].RelationIndexFromKey, 0) == (inverse ? 2 : 3))
+//@   at call DatasetsToInternalIDs#1 before
+//@     assert [C03:scope-resolved-from-the-requested-dataset-names] $arg1 == datasets
+//@   at call DatasetsToInternalIDs#1
+//@     ghost scopeG := $result
+//@   at call GetPredicateID#1 before
+//@     assert [C03:predicate-resolved-from-the-requested-predicate] $arg1 == predicate
+//@   at call GetPredicateID#1
+//@     ghost pidG := $result0
+//@   at call getIDForURI#1
+//@     ghost ridG := $result0
+//@   at call PutUint64#1
+//@     assert [C03:start-key-is-the-index-of-the-direction-followed-by-the-start-entitys-id] len(searchBuffer) == 10 && encBE16(searchBuffer, 0) == (inverse ? 2 : 3) && encBE64(searchBuffer, 2) == ridG
+//@   loop 1
+//@     invariant -1 <= $i && $i < len(startPoints) && len(from) == len(startPoints) && !foreign(from)
+//@     invariant forall a int :: 0 <= a && a <= $i ==> from[a] != nil && !foreign(from[a]) && allocated(from[a])
+//@     invariant forall a int :: 0 <= a && a <= $i ==> from[a].Predicate == pidG && from[a].Inverse == inverse && from[a].At == queryTime
+//@     invariant forall a int :: 0 <= a && a <= $i ==> from[a].Datasets == scopeG
+//@     invariant forall a int :: 0 <= a && a <= $i ==> len(from[a].RelationIndexFromKey) == 10 && encBE16(from[a].RelationIndexFromKey, 0) == (inverse ? 2 : 3) && !foreign(from[a].RelationIndexFromKey) && allocated(from[a].RelationIndexFromKey) && offOf(from[a].RelationIndexFromKey) == 0
 //@ unit (*Store).GetManyRelatedEntitiesBatch
 //@   prop C03 C06
 //@   ghost fromG slice
